@@ -157,6 +157,43 @@ func e1FileCands(x []byte, f *mp4.File, fn func(c e1Cand)) {
 			}
 		}
 	}
+	// 64-bit size fields: a top-level box with (or converted to) a 64-bit header whose largesize points backwards
+	// to the start of an earlier top-level box (or itself), is tiny, or is huge. Size arithmetic in the readers is
+	// unsigned/signed 64-bit: a size of 2^64 - k moves the read position k bytes back.
+	{
+		var starts []int
+		for _, b := range boxes {
+			if b.depth == 0 {
+				starts = append(starts, b.start)
+			}
+		}
+		for _, b := range boxes {
+			if b.depth != 0 || b.end-b.start < 8 {
+				continue
+			}
+			name := fmt.Sprintf("%s@%d", b.typ, b.start)
+			var vals []uint64
+			for _, ps := range starts {
+				if ps <= b.start {
+					vals = append(vals, uint64(0)-uint64(b.start-ps)) // 2^64 - distance (0 for the box itself)
+				}
+			}
+			vals = append(vals, 1, 15, 16, 17, 1<<63, 1<<63-1, ^uint64(0))
+			is64 := binary.BigEndian.Uint32(x[b.start:]) == 1 && b.end-b.start >= 16
+			for _, v := range vals {
+				var y []byte
+				if is64 {
+					y = append([]byte{}, x...)
+				} else {
+					// convert the 32-bit header into the 64-bit form (8 more bytes)
+					y = append(append(append([]byte{}, x[:b.start+8]...), make([]byte, 8)...), x[b.start+8:]...)
+					put32(y, b.start, 1)
+				}
+				binary.BigEndian.PutUint64(y[b.start+8:], v)
+				fn(e1Cand{Kind: "size", Desc: fmt.Sprintf("64-bit size of top-level %s <- %#x", name, v), X: y})
+			}
+		}
+	}
 	// a top-level box moved to the end / to the front
 	top := []int{}
 	for i, b := range boxes {
